@@ -246,6 +246,61 @@ static void refusals()
 	if (!threw) O().viol("cookie:weak-configuration-accepted", "15-byte hmac key");
 }
 
+// "issued by this server" as the server is CONFIGURED: two services whose configurations differ in one bit of one configured key
+// (the single key, the cipher key or the signature key of a split-key set-up) must not accept each other's cookies; identical
+// configurations must. Goes through session_pool::init(), where the configuration is turned into key material.
+static std::string hexs(std::string const &b) { static char const *d = "0123456789abcdef"; std::string o; for (unsigned char c : b) { o += d[c >> 4]; o += d[c & 15]; } return o; }
+static bool issue_and_present(cppcms::json::value const &issuer, cppcms::json::value const &verifier, std::string &detail)
+{
+	cppcms::session_pool pa(issuer); pa.init();
+	cppcms::session_pool pb(verifier); pb.init();
+	jar ja;
+	{ cppcms::session_interface s(pa, ja); s.load(); s.set("role", "admin"); s.set("n", "42"); s.save(); }
+	if (ja.cookies.empty()) { detail = "issuer set no cookie"; return false; }
+	jar jb; jb.cookies = ja.cookies;
+	cppcms::session_interface v(pb, jb);
+	bool loaded = v.load();
+	detail = "cookie " + ja.cookies.begin()->second.substr(0, 40) + "...";
+	return loaded && v.is_set("role") && v.get("role") == "admin";
+}
+static void configured_siblings(rng &r)
+{
+	static char const *hm[] = { "md5", "sha1", "sha224", "sha256", "sha384", "sha512" };
+	static char const *aes[] = { "aes", "aes128", "aes192", "aes256" };
+	static const size_t aeslen[] = { 16, 16, 24, 32 };
+	for (int shape = 0; shape < 4; shape++) {
+		cppcms::json::value cfg;
+		cfg["session"]["location"] = "client";
+		cfg["session"]["cookies"]["prefix"] = "sib";
+		std::vector<std::string> key_fields;
+		int ai = r.below(4);
+		std::string h = hm[r.below(6)];
+		switch (shape) {
+		case 0: cfg["session"]["client"]["encryptor"] = "hmac"; cfg["session"]["client"]["key"] = hexs(r.bytes(r.range(16, 40))); key_fields = { "key" }; break;
+		case 1: cfg["session"]["client"]["encryptor"] = aes[ai]; cfg["session"]["client"]["key"] = hexs(r.bytes(aeslen[ai] + r.range(16, 40))); key_fields = { "key" }; break;
+		case 2: cfg["session"]["client"]["hmac"] = h; cfg["session"]["client"]["hmac_key"] = hexs(r.bytes(r.range(16, 64))); key_fields = { "hmac_key" }; break;
+		default: cfg["session"]["client"]["cbc"] = aes[ai]; cfg["session"]["client"]["cbc_key"] = hexs(r.bytes(aeslen[ai])); cfg["session"]["client"]["hmac"] = h; cfg["session"]["client"]["hmac_key"] = hexs(r.bytes(r.range(16, 64))); key_fields = { "cbc_key", "hmac_key" };
+		}
+		std::string rp = cfg.save();
+		std::string detail;
+		try {
+			if (!issue_and_present(cfg, cfg, detail)) O().viol("cookie:own-cookie-refused-by-identical-configuration", detail, rp);
+			O().count("configured_pairs_identical");
+			for (auto const &kf : key_fields) {
+				cppcms::json::value sib = cfg;
+				std::string k = sib["session"]["client"][kf].str();
+				size_t at = r.below((uint32_t)k.size());
+				k[at] = k[at] == '0' ? '1' : (k[at] == 'f' ? 'e' : (char)(k[at] == '9' ? '8' : k[at] + 1 - (k[at] == 'a' ? 0 : 0)));
+				if (!isxdigit((unsigned char)k[at])) k[at] = '0';
+				sib["session"]["client"][kf] = k;
+				if (issue_and_present(cfg, sib, detail)) O().viol("cookie:forged-data-accepted:configured-sibling-key", "a service whose configured " + kf + " differs in one hex digit accepted the cookie; " + detail, "{\"issuer\":" + rp + ",\"differs_in\":\"" + kf + "\"}");
+				O().count("configured_pairs_differing_in_one_key");
+				O().count("configured_sibling_" + kf);
+			}
+		} catch (std::exception const &e) { O().viol("cookie:valid-configuration-refused", std::string(e.what()) + " " + rp, rp); }
+	}
+}
+
 int main(int argc, char **argv)
 {
 	args a(argc, argv);
@@ -260,6 +315,7 @@ int main(int argc, char **argv)
 	g_pool.reset(new cppcms::session_pool(cfg));
 	g_pool->init();
 	refusals();
+	for (int i = 0; i < 6; i++) configured_siblings(r);
 	std::vector<std::unique_ptr<config> > cfgs = make_configs(r);
 	int only = (int)a.num("config", -1);
 	for (size_t i = 0; i < cfgs.size(); i++) { if (only >= 0 && (int)i != only % (int)cfgs.size()) continue; run_config(r, *cfgs[i], cfgs, rounds, exhaustive); O().count("configurations"); }
